@@ -66,6 +66,21 @@ where
     }
 }
 
+impl<F: TryFuture> Drop for TryJoinAll<F> {
+    fn drop(&mut self) {
+        // The queue was built from an iterator and nothing is ever pushed, so slot `i` is vacant
+        // exactly when future `i` has completed. Until an error is returned every completed
+        // future has written `output[i]`; after an error, or once the output has been handed
+        // out, `self.output` is empty.
+        for (i, slot) in self.output.iter_mut().enumerate() {
+            if self.queue.tasks.get(i).is_none() {
+                // SAFETY: see above, this entry is init and is dropped only here.
+                unsafe { slot.assume_init_drop() };
+            }
+        }
+    }
+}
+
 impl<F: TryFuture> Future for TryJoinAll<F> {
     type Output = Result<Vec<F::Ok>, F::Err>;
 
@@ -73,9 +88,24 @@ impl<F: TryFuture> Future for TryJoinAll<F> {
         loop {
             match self.as_mut().queue.poll_inner(cx) {
                 Poll::Ready(Some((i, Ok(t)))) => {
-                    self.output[i].write(t);
+                    // the buffer is empty once an error has been returned
+                    if let Some(slot) = self.output.get_mut(i) {
+                        slot.write(t);
+                    }
                 }
-                Poll::Ready(Some((_, Err(e)))) => {
+                Poll::Ready(Some((i, Err(e)))) => {
+                    // The outputs collected so far will never be returned: release them, and
+                    // leave an empty buffer behind so that a later poll cannot read the entry
+                    // of the failed future, which was never written.
+                    let this = &mut *self;
+                    for (j, slot) in this.output.iter_mut().enumerate() {
+                        if j != i && this.queue.tasks.get(j).is_none() {
+                            // SAFETY: slot `j` is vacant because future `j` completed with `Ok`,
+                            // which wrote `output[j]`; it is dropped only here.
+                            unsafe { slot.assume_init_drop() };
+                        }
+                    }
+                    this.output = Vec::new().into_boxed_slice();
                     break Poll::Ready(Err(e));
                 }
                 Poll::Ready(None) => {
